@@ -9,9 +9,11 @@ import (
 	"buf.build/go/bufplugin/check"
 	"github.com/bufbuild/buf/private/bufpkg/bufcheck"
 	"github.com/bufbuild/buf/private/bufpkg/bufconfig"
+	"github.com/bufbuild/buf/private/bufpkg/bufplugin"
 	"github.com/bufbuild/buf/private/pkg/encoding"
 	"github.com/bufbuild/buf/private/pkg/storage"
 	"github.com/bufbuild/buf/private/pkg/storage/storagemem"
+	"github.com/bufbuild/buf/private/pkg/wasm"
 )
 
 // verifStubBufcheckNewClient is what the engine runs instead of bufcheck.NewClient (the real client needs the plugin
@@ -37,12 +39,64 @@ func (r *vRule) ID() string               { return r.id }
 func (r *vRule) Deprecated() bool         { return false }
 func (r *vRule) ReplacementIDs() []string { return nil }
 
+// The stub universe. With an empty `use` the configured rules are the DEFAULT set of the config's file version, and
+// the default sets differ between versions (as the real ones do: v2 adds rules), so a faithful migration has to
+// compensate with `except` entries. A non-empty `use` lists rule ids directly. `except` removes ids.
+var (
+	vLintDefaultV1     = []string{"ENUM_PASCAL_CASE", "FIELD_LOWER_SNAKE_CASE"}
+	vLintDefaultV2     = []string{"ENUM_PASCAL_CASE", "FIELD_LOWER_SNAKE_CASE", "FIELD_NOT_REQUIRED"}
+	vBreakingDefaultV1 = []string{"FILE_NO_DELETE"}
+	vBreakingDefaultV2 = []string{"EXTENSION_NO_DELETE", "FILE_NO_DELETE"}
+)
+
 func (c *vClient) ConfiguredRules(ctx context.Context, ruleType check.RuleType, config bufconfig.CheckConfig, options ...bufcheck.ConfiguredRulesOption) ([]bufcheck.Rule, error) {
+	ids := config.UseIDsAndCategories()
+	if len(ids) == 0 {
+		v2 := config.FileVersion() == bufconfig.FileVersionV2
+		switch {
+		case ruleType == check.RuleTypeLint && v2:
+			ids = vLintDefaultV2
+		case ruleType == check.RuleTypeLint:
+			ids = vLintDefaultV1
+		case v2:
+			ids = vBreakingDefaultV2
+		default:
+			ids = vBreakingDefaultV1
+		}
+	}
 	var rules []bufcheck.Rule
-	for _, id := range config.UseIDsAndCategories() {
-		rules = append(rules, &vRule{id: id})
+	for _, id := range ids { // sorted already (config accessors and the default lists are sorted)
+		excepted := false
+		for _, e := range config.ExceptIDsAndCategories() {
+			if e == id {
+				excepted = true
+			}
+		}
+		if !excepted {
+			rules = append(rules, &vRule{id: id})
+		}
 	}
 	return rules, nil
+}
+
+// vConfiguredIDs: the configured, non-deprecated rule ids of a check config according to the bufcheck client
+// (the stub client under the engine, the real client natively).
+func vConfiguredIDs(ctx context.Context, ruleType check.RuleType, config bufconfig.CheckConfig) []string {
+	client, err := bufcheck.NewClient(slog.Default(), bufcheck.NewLocalRunnerProvider(
+		wasm.UnimplementedRuntime,
+		bufplugin.NopPluginKeyProvider,
+		bufplugin.NopPluginDataProvider,
+	))
+	verifAssume(err == nil)
+	rules, err := client.ConfiguredRules(ctx, ruleType, config)
+	verifAssume(err == nil)
+	var ids []string
+	for _, r := range rules {
+		if !r.Deprecated() {
+			ids = append(ids, r.ID())
+		}
+	}
+	return ids
 }
 
 // The v1/v1beta1 buf.yaml document, with the yaml keys of bufconfig's external struct (the identity codec matches
@@ -96,6 +150,8 @@ func vStrsEq(a, b []string) bool {
 	return true
 }
 
+func vStrsMapLenEq(a, b map[string][]string) bool { return len(a) == len(b) }
+
 // refUnder: normalized relative dir d contains-or-equals path p.
 func refUnder(d, p string) bool {
 	if d == "." || d == p {
@@ -125,7 +181,10 @@ func VerifLemma_C16D_AddModule() {
 	case 3:
 		moduleDir, dest = top+"/"+vComp(n), top
 	}
-	doc := vBufYAMLV1{Version: "v1", Breaking: vChecks{Use: []string{"FILE"}}}
+	doc := vBufYAMLV1{Version: "v1"}
+	if verifNondetBool() {
+		doc.Breaking = vChecks{Use: []string{"FILE"}}
+	}
 	roots := []string{"."}
 	if verifNondetBool() {
 		doc.Version = "v1beta1"
@@ -181,12 +240,17 @@ func VerifLemma_C16D_AddModule() {
 		verifAssert(vJoin(dest, mc.DirPath()) == vJoin(moduleDir, r), "migrated module directory, seen from the destination, is moduleDir/root")
 		verifAssert(vStrsEq(mc.RootToExcludes()["."], om.RootToExcludes()[r]) && len(mc.RootToExcludes()) == 1, "excludes of the root carried over")
 		verifAssert(len(mc.RootToIncludes()["."]) == 0, "no includes invented")
-		verifAssert(vStrsEq(mc.LintConfig().UseIDsAndCategories(), om.LintConfig().UseIDsAndCategories()) &&
-			vStrsEq(mc.LintConfig().IgnorePaths(), om.LintConfig().IgnorePaths()) &&
-			vStrsEq(mc.BreakingConfig().UseIDsAndCategories(), om.BreakingConfig().UseIDsAndCategories()), "lint/breaking use and ignore carried over")
+		verifAssert(vStrsEq(mc.LintConfig().IgnorePaths(), om.LintConfig().IgnorePaths()) &&
+			vStrsMapLenEq(mc.LintConfig().IgnoreIDOrCategoryToPaths(), om.LintConfig().IgnoreIDOrCategoryToPaths()), "lint ignore paths carried over")
 		if vKnownMigrateDisabled(lintOff) {
 			continue
 		}
+		if !lintOff {
+			verifAssert(vStrsEq(vConfiguredIDs(ctx, check.RuleTypeLint, mc.LintConfig()), vConfiguredIDs(ctx, check.RuleTypeLint, om.LintConfig())),
+				"the migrated module is linted with the same rules as before")
+		}
+		verifAssert(vStrsEq(vConfiguredIDs(ctx, check.RuleTypeBreaking, mc.BreakingConfig()), vConfiguredIDs(ctx, check.RuleTypeBreaking, om.BreakingConfig())),
+			"the migrated module is breaking-checked with the same rules as before")
 		verifAssert(mc.LintConfig().Disabled() == om.LintConfig().Disabled(), "switched-off lint stays switched off after migration")
 		if len(roots) > 1 || !named {
 			verifAssert(len(roots) == 1 || mc.FullName() == nil, "split roots become unnamed modules")
